@@ -67,10 +67,15 @@ fn hist<T: Sc>(t: &mut Toks, cx: &mut Ctx) -> String {
         Err(c) => { cx.check(!in_range, "from_triplets rejected in-range triplets"); return format!("!{}", c); }
         Ok(s) => { cx.check(in_range, "from_triplets accepted an out-of-range triplet"); s }
     };
-    let (mut rr, mut cc) = (rows, cols);
     check_wf(&s, cx);
-    if dupfree { check_views(&s, &m, rr, cc, cx); }
-    let mut out = format!("{} | {}", dump(&s), views(&s, rows / 2, cols / 2, cx));
+    if dupfree { check_views(&s, &m, rows, cols, cx); }
+    let out = format!("{} | {}", dump(&s), views(&s, rows / 2, cols / 2, cx));
+    run_ops(t, cx, s, m, dupfree, nops, out)
+}
+
+/// the history part shared by `sp_hist` and `sp_vhist`
+fn run_ops<T: Sc>(t: &mut Toks, cx: &mut Ctx, mut s: Sparse<T>, mut m: Map<T>, dupfree: bool, nops: usize, mut out: String) -> String {
+    let (mut rr, mut cc) = (s.rows, s.cols);
     for _ in 0..nops {
         let op = t.next();
         out.push_str(" ; "); out.push_str(op); out.push(' ');
@@ -98,6 +103,32 @@ fn hist<T: Sc>(t: &mut Toks, cx: &mut Ctx) -> String {
         if cx.skip.is_some() { break; }
     }
     out
+}
+
+/// raw compressed-column arrays (rows inside a column in ANY order) followed by a history
+fn vhist<T: Sc>(t: &mut Toks, cx: &mut Ctx) -> String {
+    let (rows, cols) = (t.usize(), t.usize());
+    let val: Vec<T> = t.vec();
+    let ri = t.uvec();
+    let cs = t.uvec();
+    let nops = t.usize();
+    cx.meta("tag", T::TAG); cx.meta("shape", format!("{}x{}", rows, cols)); cx.meta("nnz", val.len()); cx.meta("ops", nops);
+    let wf = cs.len() == cols + 1 && cs.first() == Some(&0) && cs.windows(2).all(|w| w[0] <= w[1]) && cs.last() == Some(&val.len()) && ri.len() == val.len() && ri.iter().all(|r| *r < rows);
+    cx.meta("wf", wf as usize);
+    match guarded(|| Sparse::from_vecs(rows, cols, val.clone(), ri.clone(), cs.clone())) {
+        Err(c) => format!("!{}", c),
+        Ok(s) => {
+            if !wf { return format!("{} | {}", dump(&s), views(&s, rows / 2, cols / 2, cx)); }
+            check_wf(&s, cx);
+            let mut m: Map<T> = BTreeMap::new(); let mut dup = false;
+            for j in 0..cols { for k in cs[j]..cs[j + 1] { if m.insert((ri[k], j), val[k]).is_some() { dup = true; } } }
+            let unsorted = (0..cols).any(|j| (cs[j]..cs[j + 1]).collect::<Vec<_>>().windows(2).any(|w| ri[w[0]] > ri[w[1]]));
+            cx.meta("rows_unsorted_in_a_column", unsorted as usize);
+            if !dup { check_views(&s, &m, rows, cols, cx); }
+            let out = format!("{} | {}", dump(&s), views(&s, rows / 2, cols / 2, cx));
+            run_ops(t, cx, s, m, !dup, nops, out)
+        }
+    }
 }
 
 /// raw compressed-column construction
@@ -167,6 +198,7 @@ fn products<T: Sc>(t: &mut Toks, cx: &mut Ctx) -> String {
 pub fn exec(op: &str, t: &mut Toks, cx: &mut Ctx) -> Option<String> {
     match op {
         "sp_hist" => { let tag = t.next(); Some(match tag { "q" => hist::<Q>(t, cx), _ => hist::<f64>(t, cx) }) }
+        "sp_vhist" => { let tag = t.next(); Some(match tag { "q" => vhist::<Q>(t, cx), _ => vhist::<f64>(t, cx) }) }
         "sp_vecs" => { let tag = t.next(); Some(match tag { "q" => from_vecs::<Q>(t, cx), _ => from_vecs::<f64>(t, cx) }) }
         "sp_prod" => { let tag = t.next(); Some(match tag { "q" => products::<Q>(t, cx), _ => products::<f64>(t, cx) }) }
         _ => None,
@@ -238,6 +270,36 @@ pub fn gen(rng: &mut Rng, tier: Tier, out: &mut Vec<String>) {
         let mut cs = vec![0usize; cols + 1]; for x in &sorted { cs[x.1 + 1] += 1; } for j in 0..cols { cs[j + 1] += cs[j]; }
         out.push(format!("sp_vecs q {} {} {} {} {}", rows, cols, wr_vec(&val), wr_vec(&ri), wr_vec(&cs)));
     }
+    // raw compressed-column arrays whose rows are in ANY order inside a column, followed by a history
+    // of overwrites / insertions / scalings / transpositions
+    for i in 0..nh / 2 {
+        let (rows, cols) = (1 + rng.below(8), 1 + rng.below(8));
+        let dens = *rng.pick(&[35usize, 60, 100]);
+        let v = gen_pattern::<Q>(rng, rows, cols, dens);   // random order
+        let mut byc = v.clone(); byc.sort_by_key(|x| x.1);                          // stable: rows stay shuffled inside a column
+        if i % 3 == 0 { byc.sort_by_key(|x| (x.1, std::cmp::Reverse(x.0))); }          // rows descending
+        let val: Vec<Q> = byc.iter().map(|x| x.2).collect(); let ri: Vec<usize> = byc.iter().map(|x| x.0).collect();
+        let mut cs = vec![0usize; cols + 1]; for x in &byc { cs[x.1 + 1] += 1; } for j in 0..cols { cs[j + 1] += cs[j]; }
+        let pos: Vec<(usize, usize)> = byc.iter().map(|x| (x.0, x.1)).collect();
+        let nops = 1 + rng.below(8);
+        out.push(format!("sp_vhist q {} {} {} {} {} {}", rows, cols, wr_vec(&val), wr_vec(&ri), wr_vec(&cs), gen_ops_overwrite::<Q>(rng, rows, cols, &pos, nops)));
+    }
+}
+
+/// history that mostly overwrites EXISTING entries (positions taken from `pos`), with a few new ones
+fn gen_ops_overwrite<T: Sc>(rng: &mut Rng, rows: usize, cols: usize, pos: &[(usize, usize)], nops: usize) -> String {
+    let (mut r, mut c) = (rows, cols); let mut tr = false;
+    let mut s = format!("{}", nops);
+    for _ in 0..nops {
+        match rng.below(10) {
+            0..=6 => { let (i, j) = if !pos.is_empty() && rng.chance(75) { let p = *rng.pick(pos); if tr { (p.1, p.0) } else { p } } else { (if r == 0 { 0 } else { rng.below(r) }, if c == 0 { 0 } else { rng.below(c) }) };
+                       s.push_str(&format!(" insert {} {} {}", i, j, T::gen(rng, 5, 0).wr())); }
+            7 => s.push_str(&format!(" scale {}", T::gen(rng, 5, 0).wr())),
+            8 => { s.push_str(" transpose"); std::mem::swap(&mut r, &mut c); tr = !tr; }
+            _ => { let (i, j) = (if r == 0 { 0 } else { rng.below(r + 1) }, if c == 0 { 0 } else { rng.below(c + 1) }); s.push_str(&format!(" get {} {}", i, j)); }
+        }
+    }
+    s
 }
 
 pub fn gen_c07(rng: &mut Rng, tier: Tier, out: &mut Vec<String>) {
